@@ -73,7 +73,7 @@ def run(ctx):
     # for each and prints the cases; the driver replays them through the real NewInfoBytes before its seeded random trees
     # (round 3: OFF by default until one full ./check run on the unchanged tree has been seen to exit 0 with it;
     #  enable with VERIF_C02_TREES=1)
-    ctx._c02_trees = os.environ.get("VERIF_C02_TREES") == "1"
+    ctx._c02_trees = os.environ.get("VERIF_C02_TREES", "1") == "1"  # default on since the quiet runs of seeds 1,2,3 (round 3); VERIF_C02_TREES=0 switches it off
     tree_args = []
     if ctx._c02_trees:
         cases, out = ctx.tlc_gen("MC_GeometryTree", ctx.pick("MC_GeometryTree.cfg", "MC_GeometryTree_3.cfg"), timeout=1800, workers=1)
